@@ -23,7 +23,9 @@ Inductive tok :=
 | TNum (n : N)       (* a number literal *)
 | TOp (o : opr)
 | TLP | TRP | TLB | TRB | TQ | TColon | TComma | TDot
-| TSemi | TLC.       (* ';'  '{' : only as left context / terminator *)
+| TSemi | TLC        (* ';'  '{' : only as left context / terminator *)
+| TType (n : N).     (* the type name of a C-style cast, one token per type: only produced by [render];
+                        the ladder model does not transcribe iscast(): casts are outside [parse] *)
 
 (* a token with its identity (position label); decisions only look at [snd] except [precedes] *)
 Notation ptok := (N * tok)%type (only parsing).
@@ -75,7 +77,7 @@ Definition hd_is (p : tok -> bool) (l : list ptok) : bool :=
 Definition prefix_ctx (p : tok) : bool :=
   match p with
   | TLP | TLB | TLC | TOp _ | TSemi | TQ | TColon | TComma | TDot => true
-  | TId _ | TNum _ | TRP | TRB => false
+  | TId _ | TNum _ | TRP | TRB | TType _ => false
   end.
 
 (* isPrefixUnary(tok, cpp) for the token [t] with left context [b].
@@ -650,7 +652,8 @@ Inductive expr :=
 | ECall (l : N) (f : expr) (a : expr)       (* f ( a ) ; a comma expression here is an argument list *)
 | EIdx (l : N) (a i : expr)
 | EMem (ld lm : N) (a : expr) (m : N)       (* a . m   (a -> m is the same token after the tokenizer) *)
-| EPar (l : N) (a : expr).
+| EPar (l : N) (a : expr)
+| ECast (l : N) (ty : N) (a : expr).        (* ( type ) a : C-style cast to a builtin / pointer type *)
 
 Definition pre_opr (o : preop) : opr :=
   match o with
@@ -680,7 +683,7 @@ Definition P_PRE := 15%nat.  Definition P_POST := 16%nat. Definition P_ATOM := 1
 Definition prec (e : expr) : nat :=
   match e with
   | EId _ _ | ENum _ _ | EPar _ _ => P_ATOM
-  | EPre _ _ _ => P_PRE
+  | EPre _ _ _ | ECast _ _ _ => P_PRE
   | EPost _ _ _ | ECall0 _ _ | ECall _ _ _ | EIdx _ _ _ | EMem _ _ _ _ => P_POST
   | EBin _ o _ _ => bin_prec o
   | EAsg _ _ _ _ | ECond _ _ _ _ _ => P_ASG
@@ -691,7 +694,7 @@ Definition prec (e : expr) : nat :=
 Definition rootlab (e : expr) : N :=
   match e with
   | EId l _ | ENum l _ | EPre l _ _ | EPost l _ _ | EBin l _ _ _ | EAsg l _ _ _ | EComma l _ _
-  | ECall0 l _ | ECall l _ _ | EIdx l _ _ | EPar l _ => l
+  | ECall0 l _ | ECall l _ _ | EIdx l _ _ | EPar l _ | ECast l _ _ => l
   | ECond lq _ _ _ _ => lq
   | EMem ld _ _ _ => ld
   end.
@@ -717,6 +720,7 @@ Fixpoint render (e : expr) : list ptok :=
   | EIdx l a i => sub P_POST a (render a) ++ (l, TLB) :: sub P_COMMA i (render i) ++ [(l, TRB)]
   | EMem ld lm a m => sub P_POST a (render a) ++ [(ld, TDot); (lm, TId m)]
   | EPar l a => (l, TLP) :: render a ++ [(l, TRP)]
+  | ECast l ty a => (l, TLP) :: (l, TType ty) :: (l, TRP) :: sub P_PRE a (render a)
   end.
 
 (* the tree the grammar assigns, in cppcheck's representation: parentheses are not nodes; '(' is the
@@ -736,6 +740,7 @@ Fixpoint tree_of (e : expr) : ast :=
   | EIdx l a i => B (l, TLB) (tree_of a) (tree_of i)
   | EMem ld lm a m => B (ld, TDot) (tree_of a) (L (lm, TId m))
   | EPar _ a => tree_of a
+  | ECast l _ a => U (l, TLP) (tree_of a)     (* the '(' of the cast is the node *)
   end.
 
 (* ------------------------------------------------------------------ labels = token positions *)
@@ -774,6 +779,7 @@ Fixpoint relab (e : expr) (off : N) : expr * N :=
       let '(i', k2) := sub P_COMMA i (relab i) (k + 1) in (EIdx k a' i', k2 + 1)
   | EMem _ _ a m => let '(a', k) := sub P_POST a (relab a) off in (EMem k (k + 1) a' m, k + 2)
   | EPar _ a => let '(a', k) := relab a (off + 1) in (EPar off a', k + 1)
+  | ECast _ ty a => let '(a', k) := sub P_PRE a (relab a) (off + 3) in (ECast off ty a', k)
   end.
 
 Definition canon (e : expr) : expr := fst (relab e 0).
@@ -784,6 +790,7 @@ Fixpoint labels_ok (e : expr) : bool :=
   | EId _ _ | ENum _ _ => true
   | EPre l _ a => negb (N.ltb (fst (rt (tree_of a))) l) && labels_ok a
   | EPost _ _ a | ECall0 _ a | EMem _ _ a _ | EPar _ a => labels_ok a
+  | ECast l _ a => negb (N.ltb (fst (rt (tree_of a))) l) && labels_ok a
   | EBin _ _ a b | EAsg _ _ a b | EComma _ a b | ECall _ a b | EIdx _ a b => labels_ok a && labels_ok b
   | ECond _ _ c a b => labels_ok c && labels_ok a && labels_ok b
   end.
@@ -813,7 +820,7 @@ Fixpoint wf (e : expr) : bool :=
   | ECond _ _ c a b => wf c && wf a && wf b
   | ECall0 _ f => negb (is_num f) && negb (is_postincdec f) && wf f
   | ECall _ f a => negb (is_num f) && negb (is_postincdec f) && wf f && wf a
-  | EMem _ _ a _ | EPar _ a => wf a
+  | EMem _ _ a _ | EPar _ a | ECast _ _ a => wf a
   end.
 
 (* the declaration-like token pattern that compileTerm treats specially ("X ) ( name ) =", taken for a function
